@@ -3,10 +3,11 @@
    (as text, by tools/gputab.py) into the JSON file named by the environment variable GPUTAB; TLC visits one state
    per row (l indexes Tab.rows, row r holds the entry for log-size i = r - 1) and evaluates over the 64-bit field of
    W64 (B = 256):  omegas[i] = W[i];  omegas[i] * omegas_inv[i] = 1;  2^i * domain_size_inverse[i] = 1;
-   omegas[i]^(2^i) = 1 and, for i >= 1, omegas[i]^(2^(i-1)) # 1.  Every failed <<check, row>> is accumulated in
-   `fails`; the invariant is tested at the end state only, so one run names every wrong row of every table. *)
+   omegas[i]^(2^i) = 1 and, for i >= 1, omegas[i]^(2^(i-1)) # 1.  One invariant per check; lib/c20.py runs
+   TLC once per invariant and resumes behind a violating row, so every wrong row of every table is named.
+   (The checks are invariants, not part of Next: TLC caches lazy values only outside the action context.) *)
 EXTENDS W64, Json, IOUtils, TLC
-VARIABLES l, fails
+VARIABLE l
 Tab == JsonDeserialize(IOEnv.GPUTAB)
 Row == Tab.rows[l]
 RECURSIVE SqN(_, _), Dbl(_, _)
@@ -19,13 +20,7 @@ OmegasInv == EqModP(FMul(Om, Tab.omegas_inv[Row]), One8)
 DomainInv == EqModP(FMul(Dbl(One8, Row - 1), Tab.domain_size_inverse[Row]), One8)
 OmegasOrder == /\ EqModP(SqN(Om, Row - 1), One8)
                /\ (Row >= 2 => ~EqModP(SqN(Om, Row - 2), One8))
-Verdict == (IF WellFormed THEN {} ELSE {<<"WellFormed", Row>>})
-           \cup (IF OmegasEqCpu THEN {} ELSE {<<"OmegasEqCpu", Row>>})
-           \cup (IF OmegasInv THEN {} ELSE {<<"OmegasInv", Row>>})
-           \cup (IF DomainInv THEN {} ELSE {<<"DomainInv", Row>>})
-           \cup (IF OmegasOrder THEN {} ELSE {<<"OmegasOrder", Row>>})
-Init == l = 1 /\ fails = {}
-Next == l <= Len(Tab.rows) /\ l' = l + 1 /\ fails' = fails \cup Verdict
-AllRowsOk == l = Len(Tab.rows) + 1 => fails = {}
+Init == l = 1
+Next == l < Len(Tab.rows) /\ l' = l + 1
 ASSUME B = 256 => FMul(PM1, PM1) = One8
 ====
